@@ -24,17 +24,23 @@ def _load_generators():
             GENERATORS.append(mod)
 
 
-def generate(repo_dir, out_dir):
+def generate(repo_dir, out_dir, only=None):
+    """`only`: set of Gen file names the caller depends on (None = all).  A generator module declares the
+    files it writes in OUTPUTS = [...]; a module without OUTPUTS is always run.  Returns error strings,
+    each prefixed with the output files it concerns."""
     _load_generators()
     errors = []
     os.makedirs(out_dir, exist_ok=True)
     for mod in GENERATORS:
+        outs = getattr(mod, 'OUTPUTS', None)
+        if only is not None and outs is not None and not (set(outs) & set(only)):
+            continue
         try:
             for name, text in mod.generate(repo_dir):
                 with open(os.path.join(out_dir, name), 'w') as f:
                     f.write(text)
         except Exception as e:
-            errors.append('%s: %s: %s' % (mod.__name__, type(e).__name__, e))
+            errors.append('%s (%s): %s: %s' % (mod.__name__, ','.join(outs or ['?']), type(e).__name__, e))
     return errors
 
 
